@@ -76,7 +76,11 @@ def swarm_jobs(seeds, n, corpus, label="swarm"):
         rng = seeds.rng(label, i)
         base = rng.choice(corpus)
         dargv, mk, pat = dir_pattern(rng)
-        argv = ["--path", IN_DIR] + dargv + ["--option", "debug_testsuite=true"]
+        argv = ["--path", IN_DIR] + dargv
+        if rng.random() < 0.65:
+            # upstream's own test runs set this; real users do not (some output is only
+            # produced without it, e.g. source paths in setup.py)
+            argv += ["--option", "debug_testsuite=true"]
         if rng.random() < 0.8:
             argv.append("--nowrite-version")
         elif rng.random() < 0.5:
